@@ -700,35 +700,32 @@ impl QueryHashCache {
                 let radius_sq = worst_cached_distance.max(0.0).powi(2);
                 Self::l2_prefix_sq(query_embedding, insert_embedding, prefix_dims) <= radius_sq
             }
-            DistanceMetric::Cosine => {
-                let similarity_threshold = 1.0 - worst_cached_distance;
-                if !similarity_threshold.is_finite() {
+            // Vectors whose squared norm is within 2% of 1 are stored as they are, and the two
+            // search tiers then disagree slightly: the ANN tier reports `1 - dot`, the hot tier
+            // `1 - dot / (|q||v|)`. The entry is affected if either value can reach the boundary.
+            DistanceMetric::Cosine | DistanceMetric::InnerProduct => {
+                let threshold = 1.0 - worst_cached_distance;
+                if !threshold.is_finite() {
                     return true;
                 }
-                Self::cosine_upper_bound_from_prefix(
+                let cosine_bound = Self::cosine_upper_bound_from_prefix(
                     query_embedding,
                     query_stats,
                     insert_embedding,
                     insert_stats,
                     prefix_dims,
-                )
-                .map(|upper_bound| upper_bound >= similarity_threshold)
-                .unwrap_or(true)
-            }
-            DistanceMetric::InnerProduct => {
-                let dot_threshold = 1.0 - worst_cached_distance;
-                if !dot_threshold.is_finite() {
-                    return true;
-                }
-                Self::dot_upper_bound_from_prefix(
+                );
+                let dot_bound = Self::dot_upper_bound_from_prefix(
                     query_embedding,
                     query_stats,
                     insert_embedding,
                     insert_stats,
                     prefix_dims,
-                )
-                .map(|upper_bound| upper_bound >= dot_threshold)
-                .unwrap_or(true)
+                );
+                match (cosine_bound, dot_bound) {
+                    (Some(cosine), Some(dot)) => cosine.max(dot) >= threshold,
+                    _ => true,
+                }
             }
         }
     }
@@ -903,8 +900,13 @@ impl QueryHashCache {
     fn distance(a: &[f32], b: &[f32], metric: DistanceMetric) -> f32 {
         match metric {
             DistanceMetric::Euclidean => crate::simd::l2_distance_f32(a, b),
-            DistanceMetric::Cosine => 1.0 - crate::simd::cosine_similarity_f32(a, b),
-            DistanceMetric::InnerProduct => 1.0 - crate::simd::dot_f32(a, b),
+            // The smaller of what the two search tiers can report for this pair (see
+            // `insert_can_affect_cached_boundary`).
+            DistanceMetric::Cosine | DistanceMetric::InnerProduct => {
+                let by_cosine = 1.0 - crate::simd::cosine_similarity_f32(a, b);
+                let by_dot = 1.0 - crate::simd::dot_f32(a, b);
+                by_cosine.min(by_dot)
+            }
         }
     }
 }
